@@ -117,6 +117,7 @@ pub fn step_strategy(reg: Reg, class_c: bool, allow_join: bool) -> impl Strategy
         (1, prop_oneof![3 => 1u16..8, 1 => 90u16..140].prop_map(Step::Silence).boxed()),
     ];
     if class_c {
+        v.push((1, any::<bool>().prop_map(Step::SetClassC).boxed()));
         v.push((2, proptest::collection::vec(recipe_strategy(reg), 0..3).prop_map(Step::RxcListen).boxed()));
     }
     if allow_join {
@@ -124,6 +125,7 @@ pub fn step_strategy(reg: Reg, class_c: bool, allow_join: bool) -> impl Strategy
         // runs of unanswered join attempts: the join-channel walk of fixed plans has state that only
         // long runs reach (sub-band rotation, exhausted retries)
         v.push((1, prop_oneof![4 => 1u16..6, 1 => 40u16..90].prop_map(Step::JoinSilence).boxed()));
+        v.push((1, Just(Step::JoinAbp).boxed()));
     }
     proptest::strategy::Union::new_weighted(v)
 }
